@@ -26,7 +26,9 @@ DAY = dt.date(2024, 5, 15)
 PRIMARY = "240501#PR"
 
 BASE = {
-    "p.zo": "# P page\n\n- 240101#P1 a note on p\n",
+    # decoys: notes that own an ID / RID of their own and merely carry the looked-up values
+    # under other keys
+    "p.zo": "# P page\n\n- 240101#P1 a note on p\n- 240108#P8 decoy ID::other see::gid RID::otherrid src::rid1 also::sid\n",
     "sub/q.zo": "# Q page\n\n- 240102#Q1 a note on q\n  * LID::anc\n- 240103#Q2 owner of gid ID::gid\n",
     "r.zo": "# R page\n\n- 240104#R1 owner of rid RID::rid1\n- 240105#R2 zid target two\n\n"
             + "#" * 32 + " Project ID::sid\n\n- 240106#R3 first under the project\no 240107#R4 second under the project\n",
